@@ -88,6 +88,10 @@ impl CacheRegion {
   pub fn set_bank(&mut self, bank: u16) {
     self.current_bank = bank;
   }
+
+  pub fn clear(&mut self) {
+    self.cache.clear();
+  }
 }
 
 /// CachedBlocks stores individual lookup caches for each region of memory that
@@ -111,6 +115,16 @@ impl CachedBlocks {
       wram_high: CacheRegion::new(1),
       high_ram: CacheRegion::new(0),
     }
+  }
+
+  /// Forget every cached block. The bank selections are kept.
+  pub fn clear(&mut self) {
+    self.rom_low.clear();
+    self.rom_high.clear();
+    self.cart_ram.clear();
+    self.wram_low.clear();
+    self.wram_high.clear();
+    self.high_ram.clear();
   }
 
   /// Select which switchable ROM bank lookups and insertions in the
